@@ -2,6 +2,7 @@ import DspVerif.Model.Slice
 import Mathlib.Tactic.Linarith
 import Mathlib.Tactic.Ring
 import Mathlib.Tactic.SplitIfs
+import Mathlib.Tactic.Tauto
 import Mathlib.Data.List.Nodup
 /-!
 # C04 — slices select and assign exactly the numpy-designated elements
@@ -28,37 +29,21 @@ def Accept (n i1 i2 m : Int) : Prop :=
   n ≠ 0 ∧ m ≠ 0 ∧ ¬(res n i1 < 0 ∨ res n i1 ≥ n) ∧ ¬(res n i2 < 0 ∨ res n i2 > n) ∧
     ¬(m < 0 ∧ res n i1 < res n i2) ∧ ¬(m > 0 ∧ res n i1 > res n i2) ∧ ¬ (count (res n i1) (res n i2) m > n)
 
+theorem res_fold (n i : Int) : (if i < 0 then n + i else i) = res n i := rfl
+
+/-- Bridge from the REGENERATED constructor to `Accept`/`built`.  The proof does not depend on the shape of the generated
+    term (order of tests, how `_nc` is assembled, duplicated continuations): the index resolution is folded into `res`,
+    the opaque sub-terms are abstracted, and every `if` is split. -/
 theorem ctor_spec (n i1 i2 m : Int) :
     (Accept n i1 i2 m → BaseSlice.ctor n i1 i2 m = .ok (built n i1 i2 m)) ∧
     (¬ Accept n i1 i2 m → ∃ e, BaseSlice.ctor n i1 i2 m = .error e) := by
-  unfold BaseSlice.ctor
-  dsimp only
-  by_cases hn : n = 0
-  · exact ⟨fun h => absurd hn h.1, fun _ => ⟨_, by rw [if_pos (show ¬ (n ≠ 0) from not_not.mpr hn)]⟩⟩
-  by_cases hm : m = 0
-  · exact ⟨fun h => absurd hm h.2.1, fun _ => ⟨_, by rw [if_neg (show ¬ ¬ (n ≠ 0) from not_not.mpr hn), if_pos (show ¬ (m ≠ 0) from not_not.mpr hm)]⟩⟩
-  rw [if_neg (show ¬ ¬ (n ≠ 0) from not_not.mpr hn), if_neg (show ¬ ¬ (m ≠ 0) from not_not.mpr hm)]
-  show (_ → (if res n i1 < 0 ∨ res n i1 ≥ n then _ else _ : Except String BaseSlice) = _) ∧ (_ → ∃ e, (if res n i1 < 0 ∨ res n i1 ≥ n then _ else _ : Except String BaseSlice) = _)
-  by_cases h1 : res n i1 < 0 ∨ res n i1 ≥ n
-  · exact ⟨fun h => absurd h1 h.2.2.1, fun _ => ⟨_, by rw [if_pos h1]⟩⟩
-  rw [if_neg h1]
-  show (_ → (if res n i2 < 0 ∨ res n i2 > n then _ else _ : Except String BaseSlice) = _) ∧ (_ → ∃ e, (if res n i2 < 0 ∨ res n i2 > n then _ else _ : Except String BaseSlice) = _)
-  by_cases h2 : res n i2 < 0 ∨ res n i2 > n
-  · exact ⟨fun h => absurd h2 h.2.2.2.1, fun _ => ⟨_, by rw [if_pos h2]⟩⟩
-  rw [if_neg h2]
-  show (_ → (if m < 0 ∧ res n i1 < res n i2 then _ else _ : Except String BaseSlice) = _) ∧ (_ → ∃ e, (if m < 0 ∧ res n i1 < res n i2 then _ else _ : Except String BaseSlice) = _)
-  by_cases h3 : m < 0 ∧ res n i1 < res n i2
-  · exact ⟨fun h => absurd h3 h.2.2.2.2.1, fun _ => ⟨_, by rw [if_pos h3]⟩⟩
-  rw [if_neg h3]
-  show (_ → (if m > 0 ∧ res n i1 > res n i2 then _ else _ : Except String BaseSlice) = _) ∧ (_ → ∃ e, (if m > 0 ∧ res n i1 > res n i2 then _ else _ : Except String BaseSlice) = _)
-  by_cases h4 : m > 0 ∧ res n i1 > res n i2
-  · exact ⟨fun h => absurd h4 h.2.2.2.2.2.1, fun _ => ⟨_, by rw [if_pos h4]⟩⟩
-  rw [if_neg h4]
-  show (_ → (if count (res n i1) (res n i2) m > n then _ else _ : Except String BaseSlice) = _) ∧ (_ → ∃ e, (if count (res n i1) (res n i2) m > n then _ else _ : Except String BaseSlice) = _)
-  by_cases h5 : count (res n i1) (res n i2) m > n
-  · exact ⟨fun h => absurd h5 h.2.2.2.2.2.2, fun _ => ⟨_, by rw [if_pos h5]⟩⟩
-  rw [if_neg h5]
-  exact ⟨fun _ => rfl, fun h => absurd ⟨hn, hm, h1, h2, h3, h4, h5⟩ h⟩
+  unfold BaseSlice.ctor Accept built count
+  simp only [res_fold]
+  generalize res n i1 = r1
+  generalize res n i2 = r2
+  generalize Int.tmod (Int.ofNat (Int.natAbs (r2 - r1))) (Int.ofNat (Int.natAbs m)) = md
+  generalize Int.tdiv (Int.ofNat (Int.natAbs (r2 - r1))) (Int.ofNat (Int.natAbs m)) = dv
+  split_ifs <;> simp_all
 
 /-! ### arithmetic of the element count -/
 
